@@ -14,6 +14,8 @@ import (
 type picker struct {
 	r     *hlib.Rand
 	first int
+	// cbor: never choose the indefinite-length form of a byte/text string (known finding cbor-indef-string-break)
+	noIndefStr bool
 }
 
 func (p *picker) pick(n int) int {
